@@ -1,11 +1,29 @@
-(* L1 correspondence for C13: the model of the operator methods / _operate / _map vs. the implementation *)
+(* L1 correspondence for C13: the model of the operator methods / _operate / _map vs. the implementation,
+   with the exact instance (rows it computes) and with the IEEE-754 binary64 instance (every row). *)
 From Coq Require Import ZArith List Bool String.
-From DM Require Export Base.PyVal Spec.Nf Spec.Arith Spec.ArithSeries Model.Arith Model.ArithSeries.
+From DM Require Export Base.PyVal Base.Float64Py Spec.Nf Spec.Arith Spec.ArithSeries Spec.ArithIeee Model.Arith Model.ArithSeries.
 Import ListNotations.
 
 Definition model_op (t : list (fl * string)) (op : binop) (refl : bool) (c : column) (o : operand)
     (observed : res column) : bool :=
   rescol_eqv_mask (defined_mask t op refl c o) (operate exact_op (fstr_tab t) (dunder_of op refl) c o) observed.
+
+(* binary64 arithmetic F.  A zero divisor in a MixedColumn is judged here (not by the L0 oracle: the property leaves
+   zero divisors out): BaseColumn._operate applies Python's operator cell by cell, so the operation raises
+   ZeroDivisionError (judged when every other row is modelled).  Float-/IntColumn rows with a zero divisor are not
+   judged (NumPy float64: inf / nan; int64: 0; object fallback for ints beyond int64: raises). *)
+Definition model_op_ieee_gen (F : fops) (t : list (fl * string)) (op : binop) (refl : bool) (c : column) (o : operand)
+    (observed : res column) : bool :=
+  let m := defined_mask_ieee t op refl c o in
+  let zd := zerodiv_mask op refl c o in
+  if existsb (fun b => b) zd then
+    if forallb (fun b => b) (map2 orb m zd)
+    then match observed with Raise ZeroDivisionError => true | _ => false end
+    else true
+  else rescol_eqv_mask m (operate (ieee_op_gen F) (fstr_tab t) (dunder_of op refl) c o) observed.
+Definition model_op_ieee := model_op_ieee_gen prim_fops.
+Definition model_op_ieee_spec := model_op_ieee_gen spec_fops.
+
 (* malformed operands: only the exception class / success is compared *)
 Definition model_outcome (t : list (fl * string)) (op : binop) (refl : bool) (c : column) (o : operand)
     (observed : res column) : bool :=
@@ -19,3 +37,19 @@ Definition model_map (f : list (val * pyv)) (c : column) (observed : res column)
 
 Definition model_series (op : binop) (refl : bool) (c : scolumn) (o : soperand) (observed : res scolumn) : bool :=
   srescol_eqv_mask (series_mask op refl c o) (series_operate exact_op (dunder_of op refl) c o) observed.
+Definition model_series_ieee_gen (F : fops) (op : binop) (refl : bool) (c : scolumn) (o : soperand) (observed : res scolumn) : bool :=
+  srescol_eqv_mask (series_mask_gen ieee_defined op refl c o)
+                   (series_operate (ieee_op_gen F) (dunder_of op refl) c o) observed.
+Definition model_series_ieee := model_series_ieee_gen prim_fops.
+Definition model_series_ieee_spec := model_series_ieee_gen spec_fops.
+
+(* one term per case: both instances on the same arguments *)
+Definition model_c13_gen (F : fops) (t : list (fl * string)) (op : binop) (refl : bool) (c : column) (o : operand)
+    (observed : res column) : bool :=
+  model_op t op refl c o observed && model_op_ieee_gen F t op refl c o observed.
+Definition model_c13 := model_c13_gen prim_fops.
+Definition model_c13_spec := model_c13_gen spec_fops.
+Definition model_series_c13_gen (F : fops) (op : binop) (refl : bool) (c : scolumn) (o : soperand) (observed : res scolumn) : bool :=
+  model_series op refl c o observed && model_series_ieee_gen F op refl c o observed.
+Definition model_series_c13 := model_series_c13_gen prim_fops.
+Definition model_series_c13_spec := model_series_c13_gen spec_fops.
